@@ -445,6 +445,26 @@ def reportArgs (s : Sig) (fields : KW) (va : Option (List V)) : List (Name × Re
 
 def symInitArgs (F : Functor) : List (Name × Reported) := reportArgs F.sig F.bound F.va
 
+/-! ### Clone and JSON round trip of a functor -/
+
+/-- `Functor._sym_clone` (functor.py:249-259): the symbolic attributes are copied and the bound-arg
+sets and flags are carried over — the identity on the modelled state. -/
+def Functor.clone (F : Functor) : Functor := F
+
+/-- `pg.from_json(F.to_json())`: `to_json` emits every symbolic attribute that is not MISSING
+(defaults included, the `*args` list under its name, extras last); `from_json` calls
+`cls(**those)` (object.py:595), i.e. `Functor.__init__` with keywords only and default flags. -/
+def Functor.jsonRoundTrip (F : Functor) : Functor :=
+  let s := F.sig
+  let bound' := withDefaults F.bound s.pos ++ withDefaults F.bound s.kwonly
+                ++ F.bound.filter (fun p => !(s.names.contains p.1))
+  let va' : Option (List V) := s.varargs.map (fun _ => F.va.getD [])
+  { sig := s, bound := bound', va := va',
+    -- functor.py:223: `varargs` (the positional surplus) is None for a keyword-only construction
+    defaultArgs := defaultArgsOf s bound' none,
+    nonDefaultArgs := nonDefaultArgsOf s bound' va',
+    overrideArgs := false, ignoreExtraArgs := false }
+
 /-! ### Effective arguments of a two-stage call -/
 
 /-- Naming of the call-time arguments: like `nameArgs`, except that with `ignore_extra_args`
